@@ -202,6 +202,11 @@ func newOperator(expr parser.Expr, storage *engstore.SelectorPool, opts *query.O
 		return exchange.NewConcurrent(next, 2), nil
 
 	case *parser.BinaryExpr:
+		// Like the reference engine, selects below a binary expression carry neither
+		// the enclosing function nor its grouping.
+		hints.Func = ""
+		hints.Grouping = nil
+		hints.By = false
 		if e.LHS.Type() == parser.ValueTypeScalar || e.RHS.Type() == parser.ValueTypeScalar {
 			return newScalarBinaryOperator(e, storage, opts, hints)
 		}
@@ -209,6 +214,9 @@ func newOperator(expr parser.Expr, storage *engstore.SelectorPool, opts *query.O
 		return newVectorBinaryOperator(e, storage, opts, hints)
 
 	case *parser.ParenExpr:
+		// The grouping is only passed to the direct operand of an aggregation.
+		hints.Grouping = nil
+		hints.By = false
 		return newOperator(e.Expr, storage, opts, hints)
 
 	case *parser.StringLiteral:
@@ -216,6 +224,9 @@ func newOperator(expr parser.Expr, storage *engstore.SelectorPool, opts *query.O
 		return nil, errors.Wrapf(parse.ErrNotImplemented, "got: %s", e)
 
 	case *parser.UnaryExpr:
+		// The grouping is only passed to the direct operand of an aggregation.
+		hints.Grouping = nil
+		hints.By = false
 		next, err := newOperator(e.Expr, storage, opts, hints)
 		if err != nil {
 			return nil, err
